@@ -19,7 +19,7 @@ M = "typhon.retrieval.bmci.bmci:"
 NOT_DECIDED = [
     "floating point: exp() underflowing to 0 for entries far away (the weights are positive reals here, so 'no entry has non-zero weight' "
     "happens exactly for an empty chi-square window); float128 agreement is looked at in the bounded tier only",
-    "more than 3 channels symbolically (the quadratic forms are expanded for a concrete number of channels)",
+    "more than 3 channels symbolically (the quadratic forms are expanded for a concrete number of channels); __init__ itself with 1 and 2 channels only",
     "crps() and pdf() (not part of the property)",
     "several observations per call beyond the rows being handled independently (checked with 1 and 2 rows)",
 ]
@@ -166,8 +166,10 @@ ENV["same_database"] = same_database
 import os as _os
 _TIER = _os.environ.get("VERIF_TIER_EFFECTIVE", "quick")
 _MS = [1, 2] if _TIER == "quick" else [1, 2, 3]
+# (3 channels for __init__ is left out even in the thorough tier: the eigen relation S^-1 pc1 = pc1_e pc1 needs an ideal-membership
+# proof over ~30 indeterminates that does not finish in the per-obligation budget; the other contracts assume wf(self) and run with 3)
 c_init = contract(M + "BMCI.__init__", prop=P, setup=_setup_init, pure=False, env=ENV, result="real",
-                  configs=[{"m": m} for m in _MS],
+                  configs=[{"m": m} for m in (1, 2)],
                   requires=["symmetric(s_o, len(s_o))", "is_pd(s_o)"],
                   ensures=["self.n == len(x) and self.m == len(s_o)",
                            "wf_sym(self)", "wf_unit(self)", "is_psd(self.s_o_inv)",
